@@ -259,6 +259,24 @@ func ruleC06SubRaw(c *Checker) {
 						}
 					}
 				}
+				// or: the printer assembles the query itself from the URL's RawQuery behind the separator
+				if !found {
+					hasConst, hasRawQuery := false, false
+					for w := range sl {
+						if s, ok := constString(w); ok && strings.Contains(s, d) {
+							hasConst = true
+						}
+						if fa, ok := w.(*ssa.FieldAddr); ok && isURLField(fa) && fieldOf(fa).Name() == "RawQuery" {
+							hasRawQuery = true
+						}
+						if f, ok := w.(*ssa.Field); ok && fieldOf(f) != nil && fieldOf(f).Name() == "RawQuery" {
+							hasRawQuery = true
+						}
+					}
+					if hasConst && hasRawQuery {
+						found = true
+					}
+				}
 				msg := fmt.Sprintf("the splitter ends the sub-path at the first %q, but the printer does not look for it in the package address: the sub-path is not inserted in front of the query string and the result does not parse back", d)
 				if last && !found {
 					msg = fmt.Sprintf("the printer looks for the LAST %q where the splitter stops at the first", d)
